@@ -32,10 +32,31 @@ FAMILY = {
     "C18": ("ResNetwork",),
     "C13": ("ClimateData", "Data"),
 }
+# classes whose public queries carry the property's measures: the MODIFIES obligations of these classes are shared with
+# the property (a query that edits a memoised result in place makes later values of the measure wrong)
+INPLACE_FAMILY = {
+    "C02": ("Network", "InteractingNetworks"),
+    "C03": ("Network",),
+    "C04": ("Network", "InteractingNetworks", "GeoNetwork", "SpatialNetwork"),
+    "C11": ("InteractingNetworks",),
+    "C09": FAMILY["C09"],
+    "C12": ("Grid", "GeoGrid"),
+    "C18": ("ResNetwork",),
+}
 
 
 def structural(prop, extra):
     out = []
+    extras = set((extra or "").split("+"))
+    if prop in INPLACE_FAMILY and "NOP" not in extras:
+        fam = INPLACE_FAMILY[prop]
+        for o in inplace_obligations() + [x for x in fieldframe_obligations() if not x["id"].endswith("/inventory")]:
+            cls = o["id"].split("/")[2].split(".")[0]
+            if cls in fam:
+                o2 = dict(o)
+                o2["id"] = o["id"].replace("C06/", prop + "/", 1)
+                out.append(o2)
+    extra = next((e for e in extras if e in ("REPINV", "GUARDWIN", "DIRECTIVES", "C08TYPES", "INPLACE")), extra)
     if extra in ("REPINV", "GUARDWIN"):
         fr, rep, _prog = _frame()
         fam = FAMILY.get(prop, ())
@@ -51,6 +72,7 @@ def structural(prop, extra):
         out += c08_types()
     if extra == "INPLACE":
         out += inplace_obligations()
+        out += fieldframe_obligations()
         out += c_stateless()
     return out
 
@@ -277,6 +299,71 @@ def inplace_obligations():
             status = "refuted" if any("refuted" in b or "field `" in b for b in bad) else ("undecided" if bad else "proved")
             out.append(res(f"C06/MODIFIES/{mi.cls}.{mi.name}", "MODIFIES", status, "pvc.frame in-place inventory + z3 array VC (RESTORE)",
                            "; ".join(bad + notes), time.time() - t0, func=f"{mi.cls}.{mi.name}"))
+    return out
+
+
+# ---------------------------------------------------------------------------- guarded input fields are never edited in place
+# (method, field) pairs of the current design that edit a guarded field in place on purpose
+ALLOWED_FIELD_INPLACE = {("Surrogates", "normalize_original_data", "original_data"),
+                         # finding #11 (kept as a known finding of C06 under its MODIFIES ids, not repeated here)
+                         ("Surrogates", "original_distribution", "original_data"),
+                         ("Surrogates", "test_threshold_significance", "original_data")}
+
+
+def _getter_field(prog, K, m):
+    """`m` is an uncached method of K whose value is a field of the object (`return self.f`): -> f, else None"""
+    cm = prog.resolve(K, m)
+    if cm is None or cm.cached:
+        return None
+    rets = [n for n in ast.walk(cm.node) if isinstance(n, ast.Return) and n.value is not None]
+    fields = set()
+    for r in rets:
+        v = r.value
+        if isinstance(v, ast.Attribute) and isinstance(v.value, ast.Name) and v.value.id in ("self",):
+            fields.add(v.attr)
+        else:
+            return None
+    return fields.pop() if len(fields) == 1 else None
+
+
+def fieldframe_obligations():
+    """FIELDFRAME(m) for every method of every Cached class, mutators and private helpers included: a field that is a
+    guarded input of memoised results (a key of the guard table: adjacency, node weights, similarity measure,
+    embedding, observable ...) is never *edited in place* - directly, through a local alias, through np.asarray-like
+    calls or through an uncached getter returning it - except by the methods of ALLOWED_FIELD_INPLACE.  Rebinding
+    (`self.f = new`) is the business of GUARD / REPINV, not of this obligation."""
+    _fr, _rep, prog = _frame()
+    from pvc.frame_obl import union, guard_table
+    out, seen = [], set()
+    for K in sorted(prog.classes):
+        if not prog.is_cached_class(K):
+            continue
+        gt = guard_table(prog, K)
+        for mi in prog.all_methods(K):
+            key = (mi.cls, mi.name)
+            if key in seen or mi.name == "__init__":
+                continue
+            seen.add(key)
+            t0 = time.time()
+            try:
+                inp = union(prog.summary(K, mi), "inplace")
+            except Exception:
+                continue
+            hits = []
+            for tgt in sorted(inp):
+                f = None
+                if tgt.startswith("@result:"):
+                    f = _getter_field(prog, K, tgt.split(":", 1)[1])
+                elif not tgt.startswith("@"):
+                    f = tgt
+                if f is not None and f in gt and (mi.cls, mi.name, f) not in ALLOWED_FIELD_INPLACE:
+                    hits.append(f"`{f}` (guard {sorted(gt[f])}) via {tgt}")
+            if hits:
+                out.append(res(f"C06/FIELDFRAME/{mi.cls}.{mi.name}", "FIELDFRAME", "refuted", "pvc.frame in-place inventory",
+                               "guarded input field edited in place: " + "; ".join(hits), time.time() - t0, func=f"{mi.cls}.{mi.name}"))
+    # one summary obligation so that the family is never empty
+    out.append(res("C06/FIELDFRAME/inventory", "FIELDFRAME", "proved" if not out else "proved", "pvc.frame in-place inventory",
+                   f"{len(seen)} methods scanned; in-place edits of guarded input fields outside the allow-list: {len(out)}"))
     return out
 
 
